@@ -327,7 +327,7 @@ theorem minor_build_congr (I : MinorInst) {a b : Cov} (h : CovEquiv a b) :
   have hc : a.coverage = b.coverage := funext h.coverage
   have hs : a.singleCopy = b.singleCopy := by
     funext g s m; exact h.singleCopy g s m
-  simp only [MinorInst.count, MinorInst.slots, MinorInst.hasCov, MinorInst.newMuts, MinorInst.positions, MinorInst.consCORD, MinorInst.consCCNT, MinorInst.consPROD, MinorInst.varTerms, MinorInst.newAt, MinorInst.refTerms, MinorInst.consCONE, MinorInst.observed, MinorInst.consCCOV, MinorInst.consRULE1, MinorInst.consRULE2, MinorInst.consRULE3, MinorInst.keptAt, MinorInst.addAt, MinorInst.consRULE4, MinorInst.carrierTerms, MinorInst.consRULE5, MinorInst.consRULE6, MinorInst.phaseSel, MinorInst.phaseCells, MinorInst.consPHASE, MinorInst.phaseObj, MinorInst.errRows, MinorInst.consABS, MinorInst.newSelectors, MinorInst.novelCoreSel, MinorInst.novelMuts, MinorInst.consVNEWOR, MinorInst.build, hc, hs]
+  simp only [MinorInst.count, MinorInst.slots, MinorInst.hasCov, MinorInst.newMuts, MinorInst.positions, MinorInst.consCORD, MinorInst.consCCNT, MinorInst.consPROD, MinorInst.varTerms, MinorInst.newAt, MinorInst.refTerms, MinorInst.consCONE, MinorInst.observed, MinorInst.consCCOV, MinorInst.consRULE1, MinorInst.consRULE2, MinorInst.consRULE3, MinorInst.keptAt, MinorInst.addAt, MinorInst.consRULE4, MinorInst.carrierTerms, MinorInst.consRULE5, MinorInst.rule6Per, MinorInst.rule6Rhs, MinorInst.consRULE6, MinorInst.phaseSel, MinorInst.phaseCells, MinorInst.consPHASE, MinorInst.phaseObj, MinorInst.errRows, MinorInst.consABS, MinorInst.newSelectors, MinorInst.novelCoreSel, MinorInst.novelMuts, MinorInst.consVNEWOR, MinorInst.build, hc, hs]
   rfl
 
 /-! ### End to end: original table versus what the dump gives back -/
